@@ -150,7 +150,7 @@ def work_jac(chunk, tier='quick'):
     for spec, ptk in chunk:
         spec = tuple(spec)
         family, out, m, n, k, variant = spec
-        if family != 'ridge' or out == 'matrix':
+        if family != 'ridge':
             continue
         orc = c03.PointOracle(spec, ptk)
         fun = ridge.make_fun(spec)
@@ -227,8 +227,11 @@ def run_multi(ctx):
     from mc.oracle import ridge
     acc = _run_multi_hess(ctx)
     sp = [s for s in c03.specs(ctx) if s[0] == 'ridge' and s[1] != 'matrix']
+    mat = [s for s in c03.specs(ctx) if s[0] == 'ridge' and s[1] == 'matrix']      # matrix-valued f: (m, n, k) records
     if ctx.quick:
         sp = sp[ctx.seed % 3::3]
+        mat = [s for s in mat if (s[2] + s[3] + s[4] + ctx.seed) % 3 == 0]     # a third of them, every m, n, k present
+    sp = sp + mat
     items = [(s, p) for s in sp for p in ridge.POINT_KINDS]
     acc.merge(ctx.pmap(work_jac, items, chunk=4, tier=ctx.tier))
     return acc
